@@ -45,6 +45,14 @@ func structuredSeeds() [][]byte {
 		seeds = append(seeds, fibWord(n), thueMorse(n), periodDoubling(n), make([]byte, n))
 	}
 	seeds = append(seeds, deBruijn(2, 6), deBruijn(3, 3), []byte("abracadabra"), []byte("=====foofoobarfoobar bartender===="))
+	// blocks of distinct units repeated: exhaust the budget of the rank sort
+	for _, k := range []int{8, 40, 100} {
+		var x []byte
+		for i := 0; i < k; i++ {
+			x = append(x, byte(i+1), 0xff, 0x00)
+		}
+		seeds = append(seeds, append(append([]byte{}, x...), x...), append(append(append([]byte{}, x...), x...), x...))
+	}
 	return seeds
 }
 
